@@ -3,8 +3,12 @@
 //!
 //! usage: specs-harness world <histories-file>      (one history per line, integers)
 //!        specs-harness dispatch <graphs-file>     (property C11, see dispatch.rs)
+//!        specs-harness conc <cases-file>           (lock-step interleavings, see conc.rs)
+//!        specs-harness conc-stress <file>          (real threads, predicate only)
 //! output: one line per history, the outputs of the ops separated by " | ".
 mod comps;
+#[cfg(has_verif_sched)]
+mod conc;
 mod dispatch;
 mod world_exec;
 
@@ -30,6 +34,15 @@ fn main() {
         let tr = match args[1].as_str() {
             "world" => world_exec::run_history(&ints),
             "dispatch" => dispatch::run_history(&ints),
+            #[cfg(has_verif_sched)]
+            "conc" => conc::run_case(&ints),
+            #[cfg(has_verif_sched)]
+            "conc-stress" => conc::run_stress(&ints),
+            #[cfg(not(has_verif_sched))]
+            "conc" | "conc-stress" => {
+                eprintln!("the specs sources lack the C10 yield hook (apply hooks/c10_yield.patch)");
+                std::process::exit(3);
+            }
             d => panic!("unknown domain {}", d),
         };
         let parts: Vec<String> = tr
